@@ -877,7 +877,7 @@ class SimpleShape(DefinedShape):
     def _contains_jordan(
         self, jordan: JordanCurve, boundary: Optional[bool] = True
     ) -> bool:
-        for point in jordan.points(0):
+        for point in jordan.points(1):
             if not self.contains_point(point, boundary):
                 return False
         inters = jordan & self.jordans[0]
